@@ -544,7 +544,7 @@ def _read_healsparse_fits_file_and_degrade(filename, pixels, nside_out, reductio
                 aux = np.zeros(cov_map_out.nfine_per_cov, dtype=dtype_out)
                 for key, value in sparse_map_out.dtype.fields.items():
                     auxf = pix_data[key].astype(np.float64)
-                    auxf[pix_data[key] == sentinel] = np.nan
+                    auxf[pix_data[primary] == sentinel] = np.nan
                     auxf = auxf.reshape((1, (nside_out//nside_coverage)**2, -1))
                     auxf = reduce_array(auxf, reduction=reduction, weights=weight_values)
                     auxf[np.isnan(auxf)] = sentinel_out
